@@ -28,10 +28,20 @@ def rd (c : Mbc) (a : Nat) : String :=
 
 def winAddrs : List Nat := [0x0000, 0x0001, 0x3fff, 0x4000, 0x4001, 0x7fff, 0xa000, 0xa001, 0xbfff]
 
-def doReset (typ romSize ramSize len : Nat) : Option Mbc × String :=
-  match construct (image typ romSize ramSize len) with
+/-- the same image with the pages from `erase` on erased (all FF) -/
+def imageErased (typ romSize ramSize len erase : Nat) : Image :=
+  { len := len,
+    byte := fun i =>
+      if i = 0x147 then (if erase = 0 then 0xff else typ) else if i = 0x148 then (if erase = 0 then 0xff else romSize)
+      else if i = 0x149 then (if erase = 0 then 0xff else ramSize)
+      else if i / 0x4000 ≥ erase then 0xff else sig (i / 0x4000) (i % 0x4000) }
+
+def doResetImg (img : Image) : Option Mbc × String :=
+  match construct img with
   | some c => (some c, "ok")
   | none => (none, "fail")
+
+def doReset (typ romSize ramSize len : Nat) : Option Mbc × String := doResetImg (image typ romSize ramSize len)
 
 def step (s : Option Mbc) (w : List String) : Option Mbc × String :=
   match w with
@@ -41,6 +51,9 @@ def step (s : Option Mbc) (w : List String) : Option Mbc × String :=
   | ["reset", t, rs, ras, len] => match parseHex t, parseHex rs, parseHex ras, parseHex len with
       | some t, some rs, some ras, some len => doReset t rs ras len
       | _, _, _, _ => (s, "bad-op")
+  | ["reset", t, rs, ras, len, er] => match parseHex t, parseHex rs, parseHex ras, parseHex len, parseHex er with
+      | some t, some rs, some ras, some len, some er => doResetImg (imageErased t rs ras len er)
+      | _, _, _, _, _ => (s, "bad-op")
   | _ =>
     match s with
     | none => (s, "nocart")
